@@ -194,6 +194,9 @@ def gen_scripts(prop, tier, rng):
             for kind in gen.KINDS:
                 S.append(gen.rt_history(rng, kind, 30))
                 S.append(gen.rt_history(rng, kind, 20, small=True))
+        # several live instances used alternately on one thread
+        for _ in range(3 * n):
+            S.append(gen.rt_pair_history(rng))
     elif prop == "C12":
         for _ in range(2 * n):
             for kind in gen.KINDS:
